@@ -1,7 +1,7 @@
 SPECIFICATION HSpec
 CONSTANTS
   Paths = {"a", "b", "c", "d"}
-  Contents = {"x", "y", "z"}
+  Contents = {"x", "y", "z", "w"}
   Canonical = TRUE
   MaxOps = 4
   PathRank <- RankDef
